@@ -195,6 +195,7 @@ func vfC12RunQUIC(t *testing.T, k *vfKit, agg *vfC12Agg, c vfC12QCase, minUtil m
 		qc := func() *quic.Config {
 			return &quic.Config{
 				MaxIdleTimeout:                 30 * time.Second,
+				HandshakeIdleTimeout:           20 * time.Second,
 				InitialStreamReceiveWindow:     4 << 20,
 				MaxStreamReceiveWindow:         16 << 20,
 				InitialConnectionReceiveWindow: 8 << 20,
@@ -383,13 +384,14 @@ var vfC12QLinks = []vfC12QLink{
 	{"2.5MBps-40ms-60kB", 2.5, 20, 60},
 	{"0.5MBps-100ms-50kB", 0.5, 50, 50},
 	{"10MBps-20ms-250kB", 10, 10, 250},
+	{"0.25MBps-2200ms-200kB", 0.25, 1100, 200}, // satellite-like: multi-second RTT known from the handshake
 }
 
-// TestVerifC12RealQUIC: 3 profiles x 3 links (quick), 90 runs incl. lossy / reordering routers (thorough).
+// TestVerifC12RealQUIC: 3 profiles x (3 links + 1 long-RTT link) (quick), 90 runs incl. lossy / reordering routers (thorough).
 func TestVerifC12RealQUIC(t *testing.T) {
 	k := vfNewKit(t, "C12", "bbr-real-quic")
 	defer k.Finish()
-	k.maxSamples = 9
+	k.maxSamples = 12
 	agg := vfC12NewAgg()
 	defer agg.finish(k)
 	var cases []vfC12QCase
